@@ -47,7 +47,7 @@ Section Unfold.
 
   Definition comp_hint (itv : value) (items : list value) : Z :=
     match itv with
-    | VRange a b c => if c =? 0 then 0 else Z.quot (b - a) c
+    | VRange a b c => range_len a b c
     | _ => Z.of_nat (length items)
     end.
 
